@@ -770,6 +770,9 @@ func (l *Lifter) srBlock(stmts []ast.Stmt, counts map[string]*countVar, limited 
 	pendingLimit := map[string]bool{}
 	for i := 0; i < len(stmts); i++ {
 		if top {
+			if ns, ok := labelledExitAsTail(stmts, i); ok {
+				stmts = ns
+			}
 			if ns, ok := dispatchAsLoop(stmts, i, func(tag ast.Expr) bool {
 				name, _, isRead := l.readStreamCall(tag)
 				return isRead && name == "ReadByte"
@@ -1207,6 +1210,73 @@ func dispatchAsLoop(stmts []ast.Stmt, i int, isTag func(ast.Expr) bool) ([]ast.S
 }
 
 func isReturnStmt(s ast.Stmt) bool { _, ok := s.(*ast.ReturnStmt); return ok }
+
+// labelledExitAsTail rewrites, at the top level of a decoder,
+//
+//	L: for { switch TAG { case k: BODY_k … default: break L } }
+//	TAIL; return …
+//
+// into the form the readers know, every `break L` replaced by TAIL: leaving
+// the labelled loop for a tail that ends in a return is the same control flow
+// as ending the arm with that tail. Only statement lists change.
+func labelledExitAsTail(stmts []ast.Stmt, i int) ([]ast.Stmt, bool) {
+	ls, ok := stmts[i].(*ast.LabeledStmt)
+	if !ok {
+		return nil, false
+	}
+	loop, ok := ls.Stmt.(*ast.ForStmt)
+	if !ok || loop.Cond != nil || loop.Init != nil || loop.Post != nil {
+		return nil, false
+	}
+	tail := stmts[i+1:]
+	if n := len(tail); n == 0 || !isReturnStmt(tail[n-1]) {
+		return nil, false
+	}
+	for _, t := range tail {
+		switch t.(type) {
+		case *ast.ExprStmt, *ast.AssignStmt, *ast.ReturnStmt:
+		default:
+			return nil, false
+		}
+	}
+	label := ls.Label.Name
+	replaced := 0
+	var rewrite func(list []ast.Stmt) []ast.Stmt
+	rewrite = func(list []ast.Stmt) []ast.Stmt {
+		var out []ast.Stmt
+		for _, st := range list {
+			switch x := st.(type) {
+			case *ast.BranchStmt:
+				if x.Tok == token.BREAK && x.Label != nil && x.Label.Name == label {
+					out = append(out, tail...)
+					replaced++
+					continue
+				}
+			case *ast.SwitchStmt:
+				nsw := &ast.SwitchStmt{Switch: x.Switch, Init: x.Init, Tag: x.Tag, Body: &ast.BlockStmt{Lbrace: x.Body.Lbrace, Rbrace: x.Body.Rbrace}}
+				for _, cc := range x.Body.List {
+					cl := cc.(*ast.CaseClause)
+					nsw.Body.List = append(nsw.Body.List, &ast.CaseClause{Case: cl.Case, List: cl.List, Colon: cl.Colon, Body: rewrite(cl.Body)})
+				}
+				out = append(out, nsw)
+				continue
+			case *ast.IfStmt:
+				if x.Else == nil {
+					out = append(out, &ast.IfStmt{If: x.If, Init: x.Init, Cond: x.Cond, Body: &ast.BlockStmt{Lbrace: x.Body.Lbrace, List: rewrite(x.Body.List), Rbrace: x.Body.Rbrace}})
+					continue
+				}
+			}
+			out = append(out, st)
+		}
+		return out
+	}
+	body := rewrite(loop.Body.List)
+	if replaced == 0 {
+		return nil, false
+	}
+	nloop := &ast.ForStmt{For: loop.For, Body: &ast.BlockStmt{Lbrace: loop.Body.Lbrace, List: body, Rbrace: loop.Body.Rbrace}}
+	return append(append([]ast.Stmt{}, stmts[:i]...), nloop), true
+}
 
 // keyShadows: the operand of a key-only range mentions a variable spelled
 // like the key, which the key then shadows inside the body.
